@@ -172,8 +172,17 @@ func (c *Ctx) dictRecursionShape() {
 			if r0 == nil || r1 == nil || !(r0.Block().Dominates(r1.Block()) && r0 != r1) {
 				okv = false
 			}
+			// readers: the second child is fetched only after the first one has been walked. NextRef rewinds the
+			// cursors of the cell it returns, and that rewind is what lets a cell shared by both branches
+			// (identical subtrees are one object in a parsed BoC) be decoded twice.
+			if okv && strings.HasSuffix(s.fn, "mapInner") {
+				if !(rec[0].Block().Dominates(r1.Block()) && (rec[0].Block() != r1.Block() || before(rec[0], r1))) {
+					okv = false
+					why += "; the reference of the second child is fetched before the first child has been decoded"
+				}
+			}
 		}
-		c.check(okv, R, s.fn+" recurses into child 0 then child 1 with remaining-label-1", f.Pos(), "two recursive calls, first reference first, both with "+why, s.fn+": the two recursive calls do not pass the same 'remaining - label - 1' key length to the children taken from successive references (left before right)")
+		c.check(okv, R, s.fn+" recurses into child 0 then child 1 with remaining-label-1", f.Pos(), "two recursive calls, first reference first, both with "+why, s.fn+": the two recursive calls do not pass the same 'remaining - label - 1' key length to the children taken from successive references, left before right, each fetched right before it is walked ("+why+")")
 	}
 	// mapInner extends the prefix with 0 for the first child and 1 for the second
 	for _, fn := range []string{"Hashmap.mapInner", "HashmapAug.mapInner"} {
